@@ -417,8 +417,16 @@ def aio_solo(size, name, chunked):
     return _SOLO[key]
 
 
+ALL = 10 ** 9
+
+
+def aio_cfg(c):
+    """(size, names, chunked[, deviation bound]) -> 4-tuple; no bound = every interleaving."""
+    return (c[0], c[1], c[2], c[3] if len(c) > 3 and c[3] is not None else ALL)
+
+
 def aio_shard(job, rep):
-    size, names, chunked, prefix = job
+    size, names, chunked, prefix, bound = job
     cfg = {'part': 'tasks', 'size': size, 'names': list(names), 'chunked': chunked}
 
     def run(ch):
@@ -441,20 +449,24 @@ def aio_shard(job, rep):
         rep.outcome('tasks:ok')
         if any(ch.choices):
             rep.nt(digest(('aio', size, names, chunked, tuple(ch.choices))))
-    n, pts, capped = choice.explore(run, 10 ** 9, on_exec, start=[prefix])
+    n, pts, capped = choice.explore(run, bound, on_exec, start=[prefix])
     rep.state(pts)
     rep.c['aio_executions'] += n
 
 
 def aio_jobs(cfgs, rep):
     jobs = []
-    for size, names, chunked in cfgs:
-        front, n = choice.split(lambda ch: aio_run(size, names, chunked, ch), 10 ** 9, 1)
-        jobs += [(size, names, chunked, ())] if not front else [(size, names, chunked, p) for p in front]
-        if front:
+    for size, names, chunked, bound in map(aio_cfg, cfgs):
+        front, n = choice.split(lambda ch: aio_run(size, names, chunked, ch), bound, 1 if bound == ALL else 2)
+        if bound != ALL:
+            # split() ran (and, with on_exec=None, did not judge) the root and its children: judge them in a worker
+            jobs.append((size, names, chunked, 'top', bound))
+        jobs += [(size, names, chunked, (), bound)] if not front and bound == ALL else [(size, names, chunked, p, bound) for p in front]
+        if front and bound == ALL:
             # the root execution itself was run by split(); account for it in a worker-free way
-            jobs.append((size, names, chunked, None))
-        rep.sample({'part': 'tasks', 'size': size, 'requests': list(names), 'body_chunked': chunked, 'subtrees': len(front)})
+            jobs.append((size, names, chunked, None, bound))
+        rep.sample({'part': 'tasks', 'size': size, 'requests': list(names), 'body_chunked': chunked, 'subtrees': len(front),
+                    'deviations<=': 'all' if bound == ALL else bound})
     return jobs
 
 
@@ -511,6 +523,10 @@ def seq_batch(batch, rep):
 
 
 # ---------------------------------------------------------------------------
+# requests left out of the length-4 histories of the thorough tier (they take part in every history of length <= 3)
+K4_SKIP = {'a2', 'bx', 'd', 'p2', 'u2', 'o', 'w2', 'm2'}
+
+
 def plan(tier, seed):
     if tier == 'quick':
         thr_cfgs = [('small', ('a1', 'b2'), 'router', 2), ('small', ('a1', 'a2'), 'router', 2), ('small', ('bx', 'nf'), 'router', 1),
@@ -521,19 +537,23 @@ def plan(tier, seed):
                     ('full', ('u1', 'u2'), 'all', 1), ('full', ('m', 'm2'), 'all', 1), ('full', ('w1', 'w2'), 'all', 1)]
         aio_cfgs = [('full', ('a1', 'b2'), False), ('full', ('p1', 'p2'), False), ('full', ('p1', 'e1'), True), ('full', ('c', 'e2'), False),
                     # dependent middleware mode: a request rejected half-way down the stack while another is parked at an await
-                    ('dep', ('p1', 'deny'), True), ('dep', ('deny', 'p2'), True)]
+                    ('dep', ('p1', 'deny'), True), ('dep', ('deny', 'p2'), True),
+                    # three requests in flight: every interleaving with <=3 departures from the default order
+                    ('full', ('a1', 'p1', 'e2'), False, 3), ('dep', ('p1', 'deny', 'a1'), True, 2)]
         names = ['a1', 'b2', 'c', 'e1', 'e2', 'p1', 'pq', 'nf', 'm', 'm2', 'e3', 'w1', 'w2']
         perm_k = 3
     else:
-        thr_cfgs = [('small', ('a1', 'b2'), 'router', 3), ('small', ('a1', 'b2', 'nf'), 'router', 2), ('full', ('c', 'd'), 'router', 2),
+        thr_cfgs = [('small', ('a1', 'b2', 'nf'), 'router', 2), ('full', ('c', 'd'), 'router', 2),
                     ('full', ('a1', 'e1'), 'router', 2), ('small', ('a1', 'b2'), 'app', 2), ('full', ('p1', 'b2'), 'app', 1),
                     ('full', ('p1', 'f1'), 'all', 1), ('full', ('e2', 'b2'), 'all', 1), ('full', ('f1', 'p2'), 'all', 1),
                     ('full', ('a1', 'p1', 'f1'), 'all', 1), ('full', ('o', 'm'), 'all', 1), ('full', ('u1', 'u2'), 'all', 1),
                     ('full', ('pq', 'a1'), 'all', 1), ('full', ('m', 'm2'), 'all', 1), ('full', ('w1', 'w2'), 'all', 1),
                     ('full', ('e3', 'm'), 'all', 1), ('full', ('w1', 'nf'), 'all', 1), ('full', ('u1', 'u2'), 'all', 2)]
         aio_cfgs = [('full', ('a1', 'b2'), False), ('full', ('p1', 'p2'), True), ('full', ('p1', 'e1'), True), ('full', ('c', 'e2'), False),
-                    ('full', ('a1', 'p1', 'e2'), False), ('full', ('p1', 'p2', 'nf'), False),
-                    ('dep', ('p1', 'deny'), True), ('dep', ('deny', 'p2'), True), ('dep', ('p1', 'deny', 'a1'), True)]
+                    # three requests in flight: the full interleaving space has 7.4e5 members per configuration (measured;
+                    # 6 min each on 16 cores) -- explored here up to 5 (4) departures from the default order instead
+                    ('full', ('a1', 'p1', 'e2'), False, 5), ('full', ('p1', 'p2', 'nf'), False, 5),
+                    ('dep', ('p1', 'deny'), True), ('dep', ('deny', 'p2'), True), ('dep', ('p1', 'deny', 'a1'), True, 4)]
         names = list(REQS)
         perm_k = 4
     if seed % 2:
@@ -543,7 +563,7 @@ def plan(tier, seed):
         for warm in (False, True):
             for k in range(1, perm_k + 1):
                 for order in itertools.permutations(names, k):
-                    if k == perm_k and tier == 'thorough' and not (set(order) & {'p1', 'e1', 'b2', 'a1'}):
+                    if k == perm_k and tier == 'thorough' and (not (set(order) & {'p1', 'e1', 'b2', 'a1'}) or set(order) & K4_SKIP):
                         continue
                     seq_jobs.append((kind, 'full', order + (order[0],), warm))
     for kind in ('wsgi', 'asgi'):
@@ -553,9 +573,30 @@ def plan(tier, seed):
 
 
 def aio_shard_wrap(job, rep):
+    if job[3] == 'top':
+        # the top two levels of a deviation-bounded tree (root + every single deviation): run and judge them here
+        size, names, chunked, _, bound = job
+        cfg = {'part': 'tasks', 'size': size, 'names': list(names), 'chunked': chunked}
+
+        def on_exec(ch, out):
+            rep.trace()
+            rep.c['aio_executions'] += 1
+            if isinstance(out, str):
+                rep.violation({'kind': out.split(':')[0], 'part': 'tasks'}, {'cfg': cfg, 'choices': list(ch.choices)},
+                              'tasks %r interleaving %r: %s' % (names, list(ch.choices), out))
+                return
+            for n, got in zip(names, out):
+                want = aio_solo(size, n, chunked)
+                if got != want:
+                    rep.violation({'kind': 'exception' if got[3] else 'wrong-response', 'part': 'tasks'},
+                                  {'cfg': cfg, 'choices': list(ch.choices)},
+                                  'tasks %r interleaving %r: request %s got %r, alone it gets %r' % (names, list(ch.choices), n, got, want))
+                    return
+        choice.explore(lambda ch: aio_run(size, names, chunked, ch), 1, on_exec)
+        return
     if job[3] is None:
         # root execution (already run once by split in the parent to find the frontier): run + check it here
-        size, names, chunked, _ = job
+        size, names, chunked, _, _b = job
         out = aio_run(size, names, chunked, choice.Chooser(()))
         rep.trace()
         if isinstance(out, str):
@@ -575,7 +616,9 @@ def aio_shard_wrap(job, rep):
 def check(rep):
     thr_cfgs, aio_cfgs, seq_jobs = plan(rep.tier, rep.seed)
     rep.bounds = {'threads': [{'app': s, 'requests': list(n), 'points': l, 'preemptions<=': b} for s, n, l, b in thr_cfgs],
-                  'tasks': [{'app': s, 'requests': list(n), 'chunked_body': c, 'interleavings': 'all'} for s, n, c in aio_cfgs],
+                  'tasks': [{'app': s, 'requests': list(n), 'chunked_body': c,
+                             'interleavings': 'all' if b == ALL else 'all with <=%d departures from the default (FIFO, server answers at once) order' % b}
+                            for s, n, c, b in map(aio_cfg, aio_cfgs)],
                   'histories': '%d sequential orders (permutations of <=%d of the request set + repeat of the first), WSGI and ASGI, '
                                'cold and warm process-wide caches' % (len(seq_jobs), 3 if rep.tier == 'quick' else 4)}
     rep.rule = ('oracle everywhere: observation == observation of the same request alone on a fresh app; threads: all schedules with '
